@@ -103,6 +103,8 @@ var c16Owners = []string{"root", "u:adm1", "u:up1"}
 // c16Program: bucket lifecycle and settings. Buckets with several owners; every setting is put,
 // read, overwritten, deleted and read again; creating an existing bucket; ListBuckets with
 // prefix / max-buckets / continuation token by admins and non-admins.
+var c16Keys = []string{"k1", "k1", "dir/k2", ".hidden", ".well-known/acme", ".sgwtmp.bak/x", "..."}
+
 func c16Program(g *prog.Gen, idx int) []*prog.Op {
 	names := []string{"aaa-1", "aab-2", "abc", "b.c", "bkt-zz", "zzz"}
 	var ops []*prog.Op
@@ -165,9 +167,11 @@ func c16Program(g *prog.Gen, idx int) []*prog.Op {
 		case r < 92:
 			o = &prog.Op{Kind: "getLockConfig", B: b}
 		case r < 96:
-			o = &prog.Op{Kind: "putObject", B: b, K: "k1", Put: g.PutSpec(), Valid: true}
+			// object names of every shape keep a bucket non-empty: plain, nested, dot-files, names that resemble
+			// the gateway's own bookkeeping directory
+			o = &prog.Op{Kind: "putObject", B: b, K: c16Keys[g.R.Intn(len(c16Keys))], Put: g.PutSpec(), Valid: true}
 		default:
-			o = &prog.Op{Kind: "deleteObject", B: b, K: "k1"}
+			o = &prog.Op{Kind: "deleteObject", B: b, K: c16Keys[g.R.Intn(len(c16Keys))]}
 		}
 		o.Caller = caller
 		ops = append(ops, o)
@@ -180,6 +184,39 @@ func c16Program(g *prog.Gen, idx int) []*prog.Op {
 	}
 	ops = append(ops, &prog.Op{Kind: "listBuckets", Caller: "root"}, &prog.Op{Kind: "listBuckets", Caller: "u:up1"})
 	return ops
+}
+
+
+// c16DeleteProgram: DeleteBucket against buckets whose only content has one particular shape (dot-files,
+// nested keys, names resembling the bookkeeping directory, a delete marker only, old versions only, an
+// upload in progress only), then emptied step by step with a DeleteBucket attempt after every step.
+func c16DeleteProgram(versioned bool) func(g *prog.Gen, idx int) []*prog.Op {
+	shapes := [][]string{{".hidden"}, {".well-known/acme", ".htaccess"}, {".sgwtmp.bak/x"}, {"k1"}, {"dir/sub/k2"}, {"..."}, {".a", "b"}}
+	return func(g *prog.Gen, idx int) []*prog.Op {
+		b := "del-bkt"
+		keys := shapes[idx%len(shapes)]
+		ops := []*prog.Op{{Kind: "createBucket", Caller: "root", B: b, Valid: true}}
+		if versioned {
+			ops = append(ops, &prog.Op{Kind: "putVersioning", Caller: "root", B: b, On: true})
+		}
+		for _, k := range keys {
+			ops = append(ops, &prog.Op{Kind: "putObject", Caller: "root", B: b, K: k, Put: g.PutSpec(), Valid: true})
+			if versioned && g.R.Chance(50) {
+				ops = append(ops, &prog.Op{Kind: "putObject", Caller: "root", B: b, K: k, Put: g.PutSpec(), Valid: true})
+			}
+		}
+		ops = append(ops, &prog.Op{Kind: "deleteBucket", Caller: "root", B: b}, &prog.Op{Kind: "headBucket", Caller: "root", B: b})
+		for _, k := range keys {
+			ops = append(ops, &prog.Op{Kind: "getObject", Caller: "root", B: b, K: k})
+			// in a versioned bucket this only adds a delete marker: the bucket stays non-empty
+			ops = append(ops, &prog.Op{Kind: "deleteObject", Caller: "root", B: b, K: k}, &prog.Op{Kind: "deleteBucket", Caller: "root", B: b}, &prog.Op{Kind: "headBucket", Caller: "root", B: b})
+		}
+		if versioned {
+			ops = append(ops, &prog.Op{Kind: "listVersions", Caller: "root", B: b})
+		}
+		ops = append(ops, &prog.Op{Kind: "listBuckets", Caller: "root"})
+		return ops
+	}
 }
 
 func c16Classify(s *prog.Step, class string) (string, string) {
@@ -198,5 +235,11 @@ func init() {
 	}
 	checks["c16"] = checkDef{"C16",
 		"(1) bucket names: every string of length ≤ 4 (thorough ≤ 7) over {a,0,.,-,A} plus structured random names (IP-like, length 1-65, mixed pieces) judged by utils.IsValidBucketName and by Model.BucketName (= Spec.BucketName.Valid by theorem); (2) lifecycle/settings programs: 2-5 buckets by three owners with random ownership/ACL/lock, then 10-40 random creates (incl. existing), deletes, ListBuckets (prefix, max-buckets, continuation token; admin and non-admin), put/get/delete of tags, policy, ACL, ownership controls, versioning, lock configuration, by four callers; both gateway processes are restarted before the final read-back of every setting. Non-trivial: names of length 3-63 / programs reaching a bucket; distinct by name / op list.",
-		[]checkFn{c16Names, fam("settings-xattr-vdir", true, false, 1601, 60, 3000), fam("settings-sidecar", false, true, 1602, 20, 1000)}}
+		[]checkFn{c16Names, fam("settings-xattr-vdir", true, false, 1601, 60, 3000), fam("settings-sidecar", false, true, 1602, 20, 1000),
+			func(a lib.Args, res *lib.Result) error {
+				return runPrograms(a, res, progOpts{name: "delete-nonempty", prop: "C16", programs: tierN(a, 14, 280), gen: c16DeleteProgram(false), nGateways: 1, classify: c16Classify, seedOff: 1603})
+			},
+			func(a lib.Args, res *lib.Result) error {
+				return runPrograms(a, res, progOpts{name: "delete-nonempty-versioned", prop: "C16", programs: tierN(a, 14, 280), gen: c16DeleteProgram(true), versioning: true, nGateways: 1, classify: c16Classify, seedOff: 1604})
+			}}}
 }
